@@ -1,7 +1,7 @@
 #!/bin/bash
 # usage: tools/confirm_seed.sh <PROP> <k>  -- confirm a seeded change in a fresh scratch worktree of /repo HEAD:
 #   demo passes without the patch, fails with it, and the repository's test suite passes with it.
-P=$1; K=$2; SRC=/tmp/seed/out_$P/$K; W=/tmp/confirm/${P}_$K; OUT=/tmp/confirm/${P}_$K.result
+P=$1; K=$2; SRC=${SEEDSRC:-/tmp/seed/out_$P/$K}; W=/tmp/confirm/${P}_$K; OUT=/tmp/confirm/${P}_$K.result
 mkdir -p /tmp/confirm; rm -rf $W; git -C /repo worktree prune; git -C /repo worktree add -q --detach $W HEAD || exit 3
 export PYTHONPATH=$W OMP_NUM_THREADS=2 OPENBLAS_NUM_THREADS=2 MKL_NUM_THREADS=2
 cd $W
